@@ -29,8 +29,8 @@ from hv import Case
 SPEC = {
     "lean_modules": ["Honeycomb.Props.C19"],
     "required_theorems": [
-        "C19_v2_sub_self", "C19_v2_add_sub_cancel", "C19_v2_addAssign_eq", "C19_v2_subAssign_eq_iff",
-        "C19_v2_subAssign_fails", "C19_v3_subAssign_eq", "C19_v2_dot_comm", "C19_v3_dot_comm",
+        "C19_v2_sub_self", "C19_v2_add_sub_cancel", "C19_v2_addAssign_eq", "C19_v2_subAssign_eq",
+        "C19_v3_subAssign_eq", "C19_v2_dot_comm", "C19_v3_dot_comm",
         "C19_v3_cross_antisymm", "C19_v3_cross_dot_left", "C19_v3_cross_dot_right",
         "C19_orient_pos_iff_ccw", "C19_orient_neg_iff_cw", "C19_orient_swap", "C19_orient_cyclic",
         "C19_p2_average_comm", "C19_p2_average_between", "C19_p3_average_between",
@@ -81,8 +81,6 @@ SPEC = {
         "isometries is validated only",
         "polygon angle sum and convexity => angles in ]0,pi[ (hypotheses of C19_skew_mem_Ico)",
         "reversal of the face orientation is proved on the list of corner angles, not on the polygon",
-        "Vector2 -= Vector2 equals Vector2 - Vector2: FALSE (finding D12; C19_v2_subAssign_fails, "
-        "C19_v2_subAssign_eq_iff is the partial theorem)",
     ],
 }
 
@@ -907,38 +905,6 @@ def run(tier, seed):
 # ---------------------------------------------------------------------------------------------
 
 def matches(known, v):
-    """D12: `Vector2 -= Vector2`.  Matches an ORACLE failure (never a model/implementation disagreement) of a
-    compound:v2sub case whose only failing items are `compound-mismatch v2subassign`, and whose transcript shows
-    exactly the signature of the defect: the reply to v2subassign is (fl(fl(a.x - b.x) - b.x), a.y), the binary
-    operator itself being right.  Any other wrong value, any other operator, a panic, or a correspondence
-    difference is not matched."""
-    m = known.get("matcher", {})
-    if m.get("kind") != "compound-assign-mismatch" or m.get("op") != "v2subassign":
-        return False
-    if v.get("kind") != "oracle" or v.get("sig") != "compound:v2sub":
-        return False
-    rp = v.get("replay", {})
-    items = [x for x in (rp.get("oracle_failure") or "").split("; ") if x]
-    if not items or not all(x.startswith("compound-mismatch v2subassign:") for x in items):
-        return False
-    ins, outs = rp.get("input_lines", []), rp.get("impl_output", [])
-    if len(ins) != 2 or len(outs) != 2:
-        return False
-    t0, t1 = ins[0].split(), ins[1].split()
-    try:
-        if t0[0] == "geo" and t1[0] == "geo" and t0[1] == "v2sub" and t1[1] == "v2subassign" and t0[2:] == t1[2:]:
-            a = [Fr(x) for x in t0[2:]]
-            r0, r1 = parse_reply(outs[0]), parse_reply(outs[1])
-            return r0 == [a[0] - a[2], a[1] - a[3]] and r1 == [a[0] - a[2] - a[2], a[1]] and r0 != r1
-        if t0[0] == "geof" and t1[0] == "geof" and t0[1] == t1[1] and t0[2] == "v2sub" and t1[2] == "v2subassign" \
-                and t0[3:] == t1[3:]:
-            ty = t0[1]
-            a = [hex2f(ty, h) for h in t0[3:]]
-            want0 = [rnd(ty, a[0] - a[2]), rnd(ty, a[1] - a[3])]
-            want1 = [rnd(ty, rnd(ty, a[0] - a[2]) - a[2]), a[1]]
-            r0, r1 = fvals(ty, outs[0]), fvals(ty, outs[1])
-            same = lambda x, y: isinstance(x, list) and len(x) == 2 and all(f2hex(ty, p) == f2hex(ty, q) for p, q in zip(x, y))
-            return same(r0, want0) and same(r1, want1) and outs[0] != outs[1]
-    except (ValueError, IndexError, struct.error, ZeroDivisionError):
-        return False
+    """No open finding for C19.  D12 (`Vector2 -= Vector2` subtracted x twice and never y) was repaired in /repo
+    commit 90eb331 and is recorded under "fixed" in known_findings.json; a recurrence is a VIOLATION."""
     return False
